@@ -85,6 +85,7 @@ def model_source(text, uri, opts, base=0):
 
 def readable(fs, path):
     """What the model says about reading `path`: (text | None, reason)."""
+    path = fs.canon(path)
     if path in fs.dirs or path not in fs.files:
         return None, "missing-or-directory"
     if fs.faults.get(path):
